@@ -111,7 +111,35 @@ def rule_write(ctx):
     for cls in ("Server", "Connection"):
         for n_ in p.cls(cls).body:
             if isinstance(n_, ast.Assign) and isinstance(n_.value, (ast.List, ast.Dict, ast.Set)) or (isinstance(n_, ast.Assign) and isinstance(n_.value, ast.Call) and last_attr(n_.value.func) in ("set", "dict", "list", "deque", "defaultdict")):
-                ctx.fail("C17.WRITE", n_, f"class-level mutable container `{src(n_.targets[0])}` on {cls} is shared by all sessions", construct=f"{cls}:class container {src(n_.targets[0])}")
+                # a class-level container is one object for all sessions: harmless as a constant lookup table, a shared state as soon as anything writes into it
+                # (or into an element read out of it) or hands it to a session
+                name_ = src(n_.targets[0])
+                written = None
+                for m_ in session_functions(p):
+                    aliases = {name_}
+                    for x in ast.walk(m_):
+                        if isinstance(x, ast.Assign) and any(isinstance(a, ast.Attribute) and a.attr == name_ for a in ast.walk(x.value)):
+                            aliases |= {t.id for t in x.targets if isinstance(t, ast.Name)} | {e.id for t in x.targets if isinstance(t, ast.Tuple) for e in t.elts if isinstance(e, ast.Name)}
+                    for x in ast.walk(m_):
+                        tgt_roots = []
+                        if isinstance(x, (ast.Assign, ast.AugAssign, ast.Delete)):
+                            for t in assign_targets(x):
+                                if isinstance(t, (ast.Subscript, ast.Attribute)):
+                                    tgt_roots.append(t.value if isinstance(t, ast.Subscript) else t)
+                        if isinstance(x, ast.Call) and isinstance(x.func, ast.Attribute) and x.func.attr in MUTATORS:
+                            tgt_roots.append(x.func.value)
+                        for r in tgt_roots:
+                            base = r
+                            while isinstance(base, ast.Subscript):
+                                base = base.value
+                            if (isinstance(base, ast.Attribute) and base.attr == name_ and isinstance(base.value, ast.Name) and base.value.id in ("self", "cls", cls)) \
+                                    or (isinstance(base, ast.Name) and base.id in aliases and base.id != name_):
+                                written = written or x
+                        if isinstance(x, ast.keyword) and x.arg is None and isinstance(x.value, ast.Attribute) and x.value.attr == name_:
+                            written = written or x   # **template splat into a session
+                ctx.ob("C17.WRITE", n_, f"class-level container `{name_}` on {cls} is only read (a constant table)", written is None,
+                       f"class-level mutable container `{name_}` on {cls} is one object shared by all sessions and is written to / handed to a session "
+                       f"(`{src(written)[:60] if written is not None else ''}`): what one session writes, every other session sees", construct=f"{cls}:class container {name_}")
 
 
 def rule_fresh(ctx):
@@ -242,4 +270,41 @@ def rule_state(ctx):
     ctx.ob("C17.STATE", mi, "MemoryPathIO.cwd is an instance attribute", ok, "MemoryPathIO.cwd is not per instance", construct="memory:cwd")
 
 
-RULES = [rule_write, rule_fresh, rule_closure, rule_state]
+def rule_lock(ctx):
+    p = ctx.p
+    ctx.rule("C17.LOCK", "no process-wide lock (threading lock, the setlocale() context) is held across a suspension point: every session runs in the one event-loop thread, "
+                         "a second session reaching the same lock while the first is suspended blocks the whole server")
+    lock_ctx = {"setlocale"}
+    for mod, tree in p.trees.items():
+        for n_ in tree.body:
+            if isinstance(n_, ast.Assign) and isinstance(n_.value, ast.Call) and (dotted(n_.value.func) or "").split(".")[-1] in ("Lock", "RLock", "Semaphore", "BoundedSemaphore") \
+                    and (dotted(n_.value.func) or "").startswith("threading"):
+                lock_ctx |= {t.id for t in n_.targets if isinstance(t, ast.Name)}
+    n = 0
+    for q, fn in p.functions.items():
+        if not isinstance(fn, ast.AsyncFunctionDef):
+            continue
+        for w in walk_no_nested(fn):
+            if isinstance(w, ast.With):
+                held = [it for it in w.items if (isinstance(it.context_expr, ast.Call) and last_attr(it.context_expr.func) in lock_ctx)
+                        or (isinstance(it.context_expr, ast.Name) and it.context_expr.id in lock_ctx)]
+                if not held:
+                    continue
+                n += 1
+                susp = [x for s_ in w.body for x in walk_self(s_) if isinstance(x, (ast.Await, ast.AsyncFor, ast.AsyncWith))]
+                ctx.ob("C17.LOCK", w, f"{q}: `with {src(held[0].context_expr)}` contains no suspension point", not susp,
+                       f"{q}: the process-wide lock `{src(held[0].context_expr)}` is held across `{src(susp[0])[:50] if susp else ''}`: when a second session reaches the same lock "
+                       "while this one is suspended, the event-loop thread blocks on it and every session of the server freezes", construct=f"lock:{q}")
+    ctx.note(f"C17.LOCK: {n} lock-holding with-statements in coroutines")
+
+
+def rule_borrowed(ctx):
+    from .c10 import rule_pair
+    from .c11 import rule_token
+    ctx.rule("C17.SLOT", "a session gives back exactly the connection slots it took: what one session leaks or over-releases changes whether ANOTHER session is admitted (shared with C10.PAIR)")
+    ctx.borrow(rule_pair, {"C10.PAIR": "C17.SLOT"})
+    ctx.rule("C17.PORTS", "a session gives its passive port back however it ends: a port lost by one session is a 421 for another (shared with C11.TOKEN)")
+    ctx.borrow(rule_token, {"C11.TOKEN": "C17.PORTS"})
+
+
+RULES = [rule_write, rule_fresh, rule_closure, rule_state, rule_lock, rule_borrowed]
